@@ -38,12 +38,33 @@ static CH g_sym(const char *name){
 #define G_CLS_REGNAME 1
 #define G_CLS_USERINFO 2
 #define G_CLS_QUERY 3
+/* By default the "filler" characters are symbolic lowercase letters (one parser class) and path characters are
+ * lowercase letters or '.', plus ':' and '@'/sub-delims with GEN_PATH_COLON; with GEN_WIDE_CHARS every position ranges
+ * over its full RFC 3986 class. */
+static int g_is_lower(unsigned long c){ return c >= 'a' && c <= 'z'; }
 static int g_in_class(int cls, unsigned long c){
+#ifndef GEN_WIDE_CHARS
+  if (cls == G_CLS_PCHAR)
+#ifdef GEN_PATH_COLON
+    return g_is_lower(c) || c == '.' || c == ':';
+#else
+    return g_is_lower(c) || c == '.';
+#endif
+#ifdef GEN_ALPHA_CASE
+  if (cls == G_CLS_REGNAME) return g_is_alpha(c);    /* case matters for scheme and host only */
+#endif
+  return g_is_lower(c);
+#endif
   return cls == G_CLS_PCHAR ? g_is_pchar_nopct(c) : cls == G_CLS_REGNAME ? g_is_regname_nopct(c) : cls == G_CLS_USERINFO ? g_is_userinfo_nopct(c) : g_is_query_nopct(c);
 }
 /* one "character": a plain class member, or (with G_PCT) a percent-encoded triplet */
+#ifndef GEN_PCT_MAX
+#define GEN_PCT_MAX 1
+#endif
+static int g_pct_used;
 static long g_tok(CH *d, long n, int cls, int flags, const char *name){
-  if ((flags & G_PCT) && uk_choice(2, "pct")){
+  if ((flags & G_PCT) && g_pct_used < GEN_PCT_MAX && uk_choice(2, "pct")){
+    g_pct_used++;
     CH h1 = g_sym(name), h2 = g_sym(name);
     uk_assume(g_is_hex(CHV(h1))); uk_assume(g_is_hex(CHV(h2)));
     d[n++] = '%'; d[n++] = h1; d[n++] = h2;
